@@ -1,12 +1,32 @@
-"""C34 probe"""
+"""C34 - permission checks follow the declared access rules (CrossHair over the real has_perm / can_* / AccessRule /
+get_user_groups / get_user_roles / get_object_labels / Database.to_json on a real two-entity model with a subclass)."""
+import os
 from engine.core import Report
 from engine import ch
-import os
+
+
+def classify(spec, cex):
+    from checks import h_c34
+    return h_c34.explain(spec['fn'], cex)
+
 
 def run(tier, seed, only=None):
-    rep = Report('C34', 'other', 'probe')
-    T = float(os.environ.get('C34_T', '120'))
-    specs = [dict(module='checks.h_c34', fn=f, cond_timeout=T, path_timeout=T / 2, setup='setup') for f in os.environ.get('C34_FNS', 'probe').split(',')]
-    ch.run_harnesses(rep, specs, None)
-    for ob in rep.obs: print(ob.name, ob.verdict, ob.detail[:600], round(ob.time_s, 1), ob.cex)
+    if tier == 'thorough': os.environ['C34_TIER'] = 'thorough'       # read by checks/h_c34.py in the worker processes
+    from checks import h_c34 as h
+    from pony.orm import core
+    rep = Report('C34', 'other',
+                 'CrossHair over harnesses that declare a symbolic rule set through the public API (set_perms_for / perm / exclude), '
+                 'open a db_session on the real model and ask the real can_view/can_edit/can_create/can_delete, Database.to_json and '
+                 'the schema filter; asserted against a reference evaluation of the documented rule semantics, for entity, attribute '
+                 'and object targets, twice per session and under both iteration orders of the rule sets.')
+    rep.fn(core.has_perm, core.can_view, core.can_edit, core.can_create, core.can_delete, core.perm, core.AccessRule.__init__,
+           core.AccessRule.exclude, core.get_user_groups, core.get_user_roles, core.get_object_labels, core.user_groups_getter,
+           core.user_roles_getter, core.obj_labels_getter, core.Database.set_perms_for, core.Database.to_json, core.Database._get_schema_dict)
+    T = 150 if tier == 'quick' else 900
+    specs = [dict(module='checks.h_c34', fn=f, cond_timeout=T, path_timeout=T / 2, setup='setup') for f in h.HARNESSES]
+    if only: specs = [s for s in specs if only in s['fn']]
+    rep.bounds = {}
+    rep.assumptions = []
+    rep.trusted = ['crosshair-tool 0.0.110', 'z3', 'reference evaluation ref_entity/ref_object/ref_attr/schema_expected in checks/h_c34.py']
+    ch.run_harnesses(rep, specs, classify)
     return rep
